@@ -43,14 +43,12 @@ Definition spurious (k : fa_case) : list (string * pos) :=
   let ss := sites_for k in
   filter (fun w => let ms := matching ss w in negb (is_nil ms) && forallb st_bound ms) (ob_warn (fc_obs k)).
 
-(* names covered by the listed C17 finding classes: except-handler / match-capture names, the base of
-   an attribute / item `del` target, the variable of a plain `del` (warned at the del itself),
-   nested class names *)
+(* names covered by the listed C17 finding classes: match-capture names (and the other binders of node classes
+   without a visitor, except handlers excepted: fix 5c7d323), nested class names.  The former classes "base of an
+   attribute / item del target" and "variable of a plain del" were repaired by 0e6fa15 / 686ac63. *)
 Definition kf17_of (n : node) : list string :=
   match n with
-  | Other _ bs _ => bs
-  | EName id Del _ => [id]
-  | EAttr _ _ Del _ | ESub _ _ Del _ => [spell_base n]
+  | Other k bs _ => if String.eqb k "ExceptHandler" then [] else bs
   | SClassDef name _ _ => [name]
   | _ => []
   end.
